@@ -189,7 +189,8 @@ fn panic_iso(e: &'static Engine, workers: usize, yield_before: bool, hold: Hold,
 }
 
 /// a scoped child / a select arm panics: the owner re-raises the payload, nothing else is affected
-fn owner_reraise(e: &'static Engine, workers: usize, select: bool) {
+/// `remove_other`: (select only) a third arm is removed before the polling starts, its end by cancellation is consumed too
+fn owner_reraise(e: &'static Engine, workers: usize, select: bool, remove_other: bool) {
     rt_init_opts(workers, 1, 0x4000, 3_600_000_000_000);
     e.begin();
     let o = go!(move || {
@@ -206,6 +207,17 @@ fn owner_reraise(e: &'static Engine, workers: usize, select: bool) {
                         coroutine::yield_now();
                         es.send(0);
                     });
+                    if remove_other {
+                        let sel = go!(cq, 2, |es| {
+                            loop {
+                                coroutine::park();
+                                if es.get_token() == 99 {
+                                    break;
+                                }
+                            }
+                        });
+                        sel.remove();
+                    }
                     // poll until the panic of arm 0 surfaces or everything is finished
                     loop {
                         match cq.poll(None) {
@@ -374,8 +386,9 @@ pub fn build(quick: bool) -> Vec<Scenario> {
         for hold in [Hold::Mutex, Hold::RwWrite] {
             v.push(Scenario::new("C13", "panic_isolation", format!("panic.{:?}.thread_locker.w{}", hold, w), Arc::new(move |e| panic_iso(e, w, false, hold, false, true))));
         }
-        v.push(Scenario::new("C13", "owner_reraise", format!("scope_child_panic.w{}", w), Arc::new(move |e| owner_reraise(e, w, false))));
-        v.push(Scenario::new("C13", "owner_reraise", format!("select_arm_panic.w{}", w), Arc::new(move |e| owner_reraise(e, w, true))));
+        v.push(Scenario::new("C13", "owner_reraise", format!("scope_child_panic.w{}", w), Arc::new(move |e| owner_reraise(e, w, false, false))));
+        v.push(Scenario::new("C13", "owner_reraise", format!("select_arm_panic.w{}", w), Arc::new(move |e| owner_reraise(e, w, true, false))));
+        v.push(Scenario::new("C13", "owner_reraise", format!("select_arm_panic.other_arm_removed.w{}", w), Arc::new(move |e| owner_reraise(e, w, true, true))));
     }
     v.into_iter().map(|s| s.tier(quick)).collect()
 }
